@@ -66,9 +66,20 @@ class Truncate(VC):
     target = "jinja2.filters:do_truncate"
     timeout_quick = 20000
 
-    def __init__(self, leeway_from_policy=False):
+    def __init__(self, leeway_from_policy=False, clauses=None):
         self.policy = leeway_from_policy
-        super().__init__("C23", "C23.truncate" + (".policy_leeway" if leeway_from_policy else ""))
+        self.prefix = "C23.truncate" + (".policy_leeway" if leeway_from_policy else "")
+        # one task per group of clauses (they run in parallel); obligations are named <prefix>.<clause>
+        super().__init__("C23", self.prefix + ("/" + "+".join(clauses) if clauses else ""))
+        if clauses:
+            self.posts = [(c, f) for c, f in Truncate.posts if c in clauses]
+
+    def run(self, tier, seed):
+        rs = VC.run(self, tier, seed)
+        for r in rs:
+            if r.name.startswith(self.name):
+                r.name = self.prefix + r.name[len(self.name):]
+        return rs
 
     def configure(self, I):
         def rsplit(I_, st, args, kwargs, node):
@@ -985,7 +996,9 @@ WRAPPERS = [Wrapper("upper", "upper", 0), Wrapper("lower", "lower", 0), Wrapper(
             Wrapper("format", "__mod__", 2, "args"), Wrapper("format", "__mod__", 0, "kwargs"),
             Wrapper("format", "__mod__", 1, "both"), Wrapper("format", "__mod__", 0, "none")]
 
-TASKS = [Truncate(False), Truncate(True), Round(), *WRAPPERS,
+TRUNCATE = [Truncate(pol, cl) for pol in (False, True) for cl in (("total", "short_unchanged"), ("long_cut",), ("last_word_dropped",))]
+
+TASKS = [*TRUNCATE, Round(), *WRAPPERS,
          Conv("int", False), Conv("int", True), Conv("float", False), Conv("float", True), *BOUNDED]
 
 META = {
